@@ -4,7 +4,7 @@
    the stated guards, the translated function returns [Ok] of what the model
    computes.  Everything proved about the model (JSON well-formedness, value
    round trip, ...) therefore holds of the translated source. *)
-From Verif Require Import Base.Prelude Base.Decimal Base.GoSem Enc.JsonEnc Enc.GoStd Base.Utf8 Gen.JsonSrc.
+From Verif Require Import Base.Prelude Base.FloatBits Base.Decimal Base.GoSem Enc.JsonEnc Enc.GoStd Base.Utf8 Gen.JsonSrc.
 Open Scope Z_scope.
 
 Definition bytes_ok (s : list N) : Prop := Forall (fun b => (b < 256)%N) s.
@@ -603,6 +603,34 @@ Proof.
   cbn [andb]. rewrite <- app_assoc. reflexivity.
 Qed.
 
+Lemma cleanup_src dst t : (4 <= length t)%nat -> len_ok (dst ++ t) ->
+    (let X := dst ++ t in
+     guard (negb (4 <=? len X) || inb (wraps 64 (len X - 4)) X)
+      (guard (negb ((4 <=? len X) && (idx 0%N X (wraps 64 (len X - 4)) =? 101)%N) || inb (wraps 64 (len X - 3)) X)
+        (guard (negb ((4 <=? len X) && (idx 0%N X (wraps 64 (len X - 4)) =? 101)%N && (idx 0%N X (wraps 64 (len X - 3)) =? 45)%N) || inb (wraps 64 (len X - 2)) X)
+          (if (4 <=? len X) && (idx 0%N X (wraps 64 (len X - 4)) =? 101)%N && (idx 0%N X (wraps 64 (len X - 3)) =? 45)%N && (idx 0%N X (wraps 64 (len X - 2)) =? 48)%N
+           then guard (inb (wraps 64 (len X - 1)) X) (guard (inb (wraps 64 (len X - 2)) X)
+                  (guard (slice_ok (set_idx X (wraps 64 (len X - 2)) (idx 0%N X (wraps 64 (len X - 1)))) 0 (wraps 64 (len X - 1)))
+                     (Ok (slice (set_idx X (wraps 64 (len X - 2)) (idx 0%N X (wraps 64 (len X - 1)))) 0 (wraps 64 (len X - 1))))))
+           else Ok X)))) = Ok (dst ++ cleanup_exp (t)).
+Proof.
+  intros H4 Hlen. destruct (last4 _ H4) as (pre & c1 & c2 & c3 & c4 & Et). cbv zeta. subst t.
+    rewrite cleanup_exp_last4. rewrite app_assoc in *. set (L := dst ++ pre) in *.
+    assert (Hl : len (L ++ [c1; c2; c3; c4]) = len L + 4) by (rewrite len_app; reflexivity).
+    pose proof (len_nonneg L) as HL. unfold len_ok in Hlen. rewrite Hl in *.
+    replace (4 <=? len L + 4) with true by lia. cbn [negb andb orb].
+    rewrite !wraps64_id by lia.
+    replace (len L + 4 - 4) with (len L + 0) by lia. replace (len L + 4 - 3) with (len L + 1) by lia.
+    replace (len L + 4 - 2) with (len L + 2) by lia. replace (len L + 4 - 1) with (len L + 3) by lia.
+    rewrite !idx_app_r by lia. change (idx 0%N [c1; c2; c3; c4] 0) with c1. change (idx 0%N [c1; c2; c3; c4] 1) with c2.
+    change (idx 0%N [c1; c2; c3; c4] 2) with c3. change (idx 0%N [c1; c2; c3; c4] 3) with c4.
+    rewrite !inb_true by (rewrite Hl; lia). rewrite !orb_true_r, !guard_true.
+    destruct ((c1 =? 101)%N && (c2 =? 45)%N && (c3 =? 48)%N); [|unfold L; rewrite <- app_assoc; reflexivity].
+    rewrite set_idx_app_r by lia. change (set_idx [c1; c2; c3; c4] 2 c4) with [c1; c2; c4; c4].
+    rewrite slice_ok_true by (rewrite ?len_app; change (len [c1; c2; c4; c4]) with 4; lia). rewrite guard_true.
+    rewrite slice_app_l by lia. change (slice [c1; c2; c4; c4] 0 3) with [c1; c2; c4]. unfold L; rewrite <- app_assoc; reflexivity. 
+Qed.
+
 Theorem AppendFloat64_src fo dst f prec : (f_bits f < 2 ^ 64)%N -> fo_agrees fo f prec -> (4 <= length (f_txt_e f))%nat ->
   len_ok (dst ++ f_txt_e f) ->
   JsonSrc.AppendFloat64 fo dst (mk64 (f_bits f)) prec = Ok (JsonEnc.AppendFloat64 dst f prec).
@@ -628,37 +656,83 @@ Proof.
   change (f64_abs b) with a. change f64_1em6 with 4517329193108106637%N. change f64_1e21 with 4921056587992461136%N.
   unfold strconv_AppendFloat. fold (mk64 b). rewrite Hf, He.
   change (102 =? 101)%N with false. change (101 =? 101)%N with true. cbv iota.
-  (* the e-format branch with the clean-up, proved once *)
-  assert (Hclean :
-    (let X := dst ++ f_txt_e f in
-     guard (negb (4 <=? len X) || inb (wraps 64 (len X - 4)) X)
-      (guard (negb ((4 <=? len X) && (idx 0%N X (wraps 64 (len X - 4)) =? 101)%N) || inb (wraps 64 (len X - 3)) X)
-        (guard (negb ((4 <=? len X) && (idx 0%N X (wraps 64 (len X - 4)) =? 101)%N && (idx 0%N X (wraps 64 (len X - 3)) =? 45)%N) || inb (wraps 64 (len X - 2)) X)
-          (if (4 <=? len X) && (idx 0%N X (wraps 64 (len X - 4)) =? 101)%N && (idx 0%N X (wraps 64 (len X - 3)) =? 45)%N && (idx 0%N X (wraps 64 (len X - 2)) =? 48)%N
-           then guard (inb (wraps 64 (len X - 1)) X) (guard (inb (wraps 64 (len X - 2)) X)
-                  (guard (slice_ok (set_idx X (wraps 64 (len X - 2)) (idx 0%N X (wraps 64 (len X - 1)))) 0 (wraps 64 (len X - 1)))
-                     (Ok (slice (set_idx X (wraps 64 (len X - 2)) (idx 0%N X (wraps 64 (len X - 1)))) 0 (wraps 64 (len X - 1))))))
-           else Ok X)))) = Ok (dst ++ cleanup_exp (f_txt_e f))).
-  { destruct (last4 _ H4) as (pre & c1 & c2 & c3 & c4 & Et). cbv zeta. rewrite Et in *.
-    rewrite cleanup_exp_last4. rewrite app_assoc in *. set (L := dst ++ pre) in *.
-    assert (Hl : len (L ++ [c1; c2; c3; c4]) = len L + 4) by (rewrite len_app; reflexivity).
-    pose proof (len_nonneg L) as HL. unfold len_ok in Hlen. rewrite Hl in *.
-    replace (4 <=? len L + 4) with true by lia. cbn [negb andb orb].
-    rewrite !wraps64_id by lia.
-    replace (len L + 4 - 4) with (len L + 0) by lia. replace (len L + 4 - 3) with (len L + 1) by lia.
-    replace (len L + 4 - 2) with (len L + 2) by lia. replace (len L + 4 - 1) with (len L + 3) by lia.
-    rewrite !idx_app_r by lia. change (idx 0%N [c1; c2; c3; c4] 0) with c1. change (idx 0%N [c1; c2; c3; c4] 1) with c2.
-    change (idx 0%N [c1; c2; c3; c4] 2) with c3. change (idx 0%N [c1; c2; c3; c4] 3) with c4.
-    rewrite !inb_true by (rewrite Hl; lia). rewrite !orb_true_r, !guard_true.
-    destruct ((c1 =? 101)%N && (c2 =? 45)%N && (c3 =? 48)%N); [|unfold L; rewrite <- app_assoc; reflexivity].
-    rewrite set_idx_app_r by lia. change (set_idx [c1; c2; c3; c4] 2 c4) with [c1; c2; c4; c4].
-    rewrite slice_ok_true by (rewrite ?len_app; change (len [c1; c2; c4; c4]) with 4; lia). rewrite guard_true.
-    rewrite slice_app_l by lia. change (slice [c1; c2; c4; c4] 0 3) with [c1; c2; c4]. unfold L; rewrite <- app_assoc; reflexivity. }
+  pose proof (cleanup_src dst (f_txt_e f) H4 Hlen) as Hclean.
   cbv zeta in Hclean.
   destruct (prec =? -1) eqn:Ep; cbn [andb]; [|reflexivity].
   destruct (a =? 0)%N eqn:Ea0; cbn [negb andb]; [reflexivity|].
   destruct ((a <? 4517329193108106637)%N || (4921056587992461136 <=? a)%N); [exact Hclean|reflexivity].
 Qed.
+
+(* ---------- appendFloat, 32-bit path: float64(val) widened exactly, float32(abs) narrowed back, float32 thresholds ---------- *)
+Definition mk32 (b : N) : gofl := {| fl32 := true; flbits := b |}.
+Definition fo_agrees32 (fo : float_oracle) (f : fval) (prec : Z) : Prop :=
+  fo (fl_to64 (mk32 (f_bits f))) 102%N prec 32 = f_txt_f f /\ fo (fl_to64 (mk32 (f_bits f))) 101%N prec 32 = f_txt_e f.
+
+Lemma key32 a : (a < 2147483648)%N -> fl_key {| fl32 := true; flbits := a |} = Z.of_N a.
+Proof. intros H. unfold fl_key, fl_neg_bit, fl_abs. cbn [fl32 flbits]. rewrite N.mod_small by lia. replace (2147483648 <=? a)%N with false by lia. reflexivity. Qed.
+Lemma cmp32 a c : (a < 2147483648)%N -> (c < 2147483648)%N ->
+  fl_isnan {| fl32 := true; flbits := a |} = false -> fl_isnan {| fl32 := true; flbits := c |} = false ->
+  fl_lt {| fl32 := true; flbits := a |} {| fl32 := true; flbits := c |} = (a <? c)%N /\
+  fl_le {| fl32 := true; flbits := c |} {| fl32 := true; flbits := a |} = (c <=? a)%N.
+Proof. intros Ha Hc Na Nc. unfold fl_lt, fl_le. rewrite Na, Nc, !key32 by auto. cbn [negb andb]. split; lia. Qed.
+
+Lemma isnan32_abs b : (b < 4294967296)%N -> isnan32 (b mod 2147483648) = isnan32 b.
+Proof.
+  intros Hb. destruct (split32 b Hb) as (Eb & Hs & He & Hm). cbv zeta in *.
+  set (s := (b / 2147483648)%N) in *. set (e := ((b / 8388608) mod 256)%N) in *. set (m := (b mod 8388608)%N) in *.
+  assert (Ha : (b mod 2147483648 = e * 8388608 + m)%N).
+  { symmetry. apply (N.mod_unique b 2147483648 s (e * 8388608 + m)%N); lia. }
+  unfold isnan32. rewrite Ha. fold e m.
+  assert (M0 : ((e * 8388608 + m) mod 8388608 = m)%N) by (symmetry; apply (N.mod_unique _ 8388608 e m); lia).
+  assert (E0 : (((e * 8388608 + m) / 8388608) mod 256 = e)%N).
+  { assert (((e * 8388608 + m) / 8388608) = e)%N as -> by (symmetry; apply (N.div_unique _ 8388608 e m); lia). apply N.mod_small; lia. }
+  rewrite M0, E0. reflexivity.
+Qed.
+
+Theorem AppendFloat32_src fo dst f prec : (f_bits f < 4294967296)%N -> fo_agrees32 fo f prec -> (4 <= length (f_txt_e f))%nat ->
+  len_ok (dst ++ f_txt_e f) ->
+  JsonSrc.AppendFloat32 fo dst (mk32 (f_bits f)) prec = Ok (JsonEnc.AppendFloat32 dst f prec).
+Proof.
+  intros Hb [Hf He] H4 Hlen. unfold JsonSrc.AppendFloat32, JsonSrc.appendFloat, JsonEnc.AppendFloat32, JsonEnc.appendFloat.
+  set (b := f_bits f) in *. unfold fl_to64, mk32 in *. cbn [fl32 flbits] in *.
+  unfold fl_isnan, fl_isinf. cbn [fl32 flbits].
+  change (((widen b / 4503599627370496) mod 2048 =? 2047)%N && negb (widen b mod 4503599627370496 =? 0)%N) with (isnan64 (widen b)).
+  rewrite widen_nan by auto.
+  change ((f32_exp b =? 255)%N && negb (f32_man b =? 0)%N) with (isnan32 b).
+  destruct (isnan32 b) eqn:Enan; [reflexivity|].
+  cbn [Z.leb Z.compare andb orb]. rewrite !orb_false_r.
+  change 9218868437227405312%N with (widen 2139095040). change 18442240474082181120%N with (widen 4286578688).
+  rewrite !widen_eqb by (auto; lia).
+  destruct (b =? 2139095040)%N; [reflexivity|]. destruct (b =? 4286578688)%N; [reflexivity|].
+  cbv zeta.
+  change (fl_abs {| fl32 := false; flbits := widen b |}) with {| fl32 := false; flbits := (widen b mod 9223372036854775808)%N |}.
+  rewrite widen_abs by auto.
+  assert (Ha : (b mod 2147483648 < 2147483648)%N) by (apply N.mod_lt; lia).
+  set (a := (b mod 2147483648)%N) in *.
+  assert (Ha' : (a < 4294967296)%N) by lia.
+  assert (Na : isnan32 a = false) by (unfold a; rewrite isnan32_abs by auto; exact Enan).
+  assert (Nw : fl_isnan {| fl32 := false; flbits := widen a |} = false).
+  { unfold fl_isnan. cbn [fl32 flbits]. change (isnan64 (widen a) = false). rewrite widen_nan by auto. exact Na. }
+  assert (Hw63 : (widen a < 9223372036854775808)%N).
+  { unfold a. rewrite <- widen_abs by auto. apply N.mod_lt. lia. }
+  assert (Eq0 : fl_eq {| fl32 := false; flbits := widen a |} {| fl32 := false; flbits := 0 |} = (a =? 0)%N).
+  { destruct (cmp64 (widen a) 0 Hw63 ltac:(lia) Nw ltac:(reflexivity)) as (_ & _ & E). rewrite E.
+    change 0%N with (widen 0) at 1. apply widen_eqb; auto; lia. }
+  rewrite Eq0.
+  unfold fl_to32_ok, fl_to32. cbn [fl32 flbits]. rewrite narrow_widen by auto.
+  destruct (cmp32 a 897988541 Ha ltac:(lia) Na ltac:(reflexivity)) as (Elt & _).
+  destruct (cmp32 a 1649989415 Ha ltac:(lia) Na ltac:(reflexivity)) as (_ & Ele).
+  rewrite Elt, Ele. unfold fl_same_width. cbn [fl32 Bool.eqb Z.eqb Pos.eqb negb andb orb unsup_unless].
+  rewrite ?orb_true_r. cbn [unsup_unless].
+  change (f32_abs b) with a. change f32_1em6 with 897988541%N. change f32_1e21 with 1649989415%N.
+  unfold strconv_AppendFloat. rewrite Hf, He.
+  change (102 =? 101)%N with false. change (101 =? 101)%N with true. cbv iota.
+  pose proof (cleanup_src dst (f_txt_e f) H4 Hlen) as Hclean. cbv zeta in Hclean.
+  destruct (prec =? -1) eqn:Ep; cbn [andb]; [|reflexivity].
+  destruct (a =? 0)%N eqn:Ea0; cbn [negb andb]; [reflexivity|].
+  destruct ((a <? 897988541)%N || (1649989415 <=? a)%N); [exact Hclean|reflexivity].
+Qed.
+
 
 (* ---------- summary: every translated function of internal/json refines the model ---------- *)
 Definition strs_ok (vals : list (list N)) : Prop := Forall (fun s => bytes_ok s /\ len_ok s) vals.
@@ -694,7 +768,9 @@ Definition json_source_refinement : Prop :=
   (forall dst t format, tval_ok t -> JsonSrc.AppendTime dst t format = Ok (JsonEnc.AppendTime dst t (fmt_of format))) /\
   (forall dst l format, Forall tval_ok l -> JsonSrc.AppendTimes dst l format = Ok (JsonEnc.AppendTimes dst l (fmt_of format))) /\
   (forall fo dst f prec, (f_bits f < 2 ^ 64)%N -> fo_agrees fo f prec -> (4 <= length (f_txt_e f))%nat -> len_ok (dst ++ f_txt_e f) ->
-     JsonSrc.AppendFloat64 fo dst (mk64 (f_bits f)) prec = Ok (JsonEnc.AppendFloat64 dst f prec)).
+     JsonSrc.AppendFloat64 fo dst (mk64 (f_bits f)) prec = Ok (JsonEnc.AppendFloat64 dst f prec)) /\
+  (forall fo dst f prec, (f_bits f < 4294967296)%N -> fo_agrees32 fo f prec -> (4 <= length (f_txt_e f))%nat -> len_ok (dst ++ f_txt_e f) ->
+     JsonSrc.AppendFloat32 fo dst (mk32 (f_bits f)) prec = Ok (JsonEnc.AppendFloat32 dst f prec)).
 
 Theorem json_source_refines_model : json_source_refinement.
 Proof.
@@ -703,7 +779,7 @@ Proof.
           | apply AppendStrings_src | apply AppendArrayDelim_src | apply AppendBool_src | apply AppendBools_src
           | apply AppendInts_src | apply AppendInts8_src | apply AppendInts16_src | apply AppendInts32_src | apply AppendInts64_src
           | apply AppendUints_src | apply AppendUints8_src | apply AppendUints16_src | apply AppendUints32_src | apply AppendUints64_src
-          | apply AppendTime_src | apply AppendTimes_src | apply AppendFloat64_src | reflexivity ]; auto.
+          | apply AppendTime_src | apply AppendTimes_src | apply AppendFloat64_src | apply AppendFloat32_src | reflexivity ]; auto.
 Qed.
 
 (* the functions of internal/json the translator could NOT express stay tied to the code by the
